@@ -55,7 +55,10 @@ Proof.
 Qed.
 
 Section Reject.
-Variables (c : ctx) (dl : bool).
+Variables (fl : rfilter) (c : ctx) (dl : bool).
+(* what the filter does to the stat copy keeps type bits and link name *)
+Hypothesis Hmap_mode : forall s, st_mode (f_map fl s) = st_mode s.
+Hypothesis Hmap_link : forall s, st_linkname (f_map fl s) = st_linkname s.
 
 (* ---------------- bookkeeping of one HandleChange call ---------------- *)
 Lemma spend_none st : r_budget st = None -> exists st1, spend st = Some st1 /\ r_budget st1 = None
@@ -104,13 +107,19 @@ Qed.
 
 Lemma apply_change_bk idx kind p s st :
   r_budget st = None ->
-  let st' := apply_change c idx kind p s st in
+  let st' := apply_change fl c idx kind p s st in
   r_out st' = r_out st /\
   bk st st' (match blookup p (r_files st) with
              | Some id => if negb (N.eqb kind 2) && regular_branch s then [id] else []
              | None => [] end).
 Proof.
-  intros Hb. cbv zeta. unfold apply_change. destruct (negb (live st)); [split; [reflexivity|apply bk_refl; auto]|].
+  intros Hb. cbv zeta. unfold apply_change. destruct (f_rej fl p); [split; [reflexivity|apply bk_refl; auto]|].
+  cbv zeta.
+  set (s' := if N.eqb kind 2 then s else f_map fl s).
+  assert (Hreg : regular_branch s' = regular_branch s).
+  { unfold s'. destruct (N.eqb kind 2); [reflexivity|]. unfold regular_branch. rewrite Hmap_mode, Hmap_link. reflexivity. }
+  rewrite <- Hreg. clearbody s'. clear Hreg s. rename s' into s.
+  destruct (negb (live st)); [split; [reflexivity|apply bk_refl; auto]|].
   destruct (spend_none st Hb) as (st1 & Es & Hb1 & Ef & Ev & Ese & En & Ep & Efi & Eo & Et & _).
   rewrite Es. cbn [r_fs set_tmps].
   destruct (dw_handle c (r_fs st1) (hd default_tmp (r_tmps st1)) kind p s) as [f' res] eqn:Edw.
@@ -167,9 +176,10 @@ Proof.
   intros id pp Hin. left. rewrite sb_pipes0 in Hin. change id with (fst (id, pp)). apply in_map. exact Hin.
 Qed.
 
-Lemma apply_change_del idx p s st : r_budget st = None -> same_bk st (apply_change c idx 2 p s st).
+Lemma apply_change_del idx p s st : r_budget st = None -> same_bk st (apply_change fl c idx 2 p s st).
 Proof.
-  intros Hb. unfold apply_change. destruct (negb (live st)); [constructor; auto|].
+  intros Hb. unfold apply_change. destruct (f_rej fl p); [constructor; auto|].
+  cbn [N.eqb Pos.eqb]. cbv zeta. destruct (negb (live st)); [constructor; auto|].
   destruct (spend_none st Hb) as (st1 & Es & Hb1 & Ef & Ev & Ese & En & Ep & Efi & Eo & Et & _).
   rewrite Es. cbn [r_fs set_tmps].
   destruct (dw_handle c (r_fs st1) (hd default_tmp (r_tmps st1)) 2 p s) as [f' res] eqn:Edw.
@@ -191,7 +201,7 @@ Definition newids (p : bytes) (s : stat) (st : rstate) : list N :=
   end.
 
 Lemma apply_change_add idx kind p s st : r_budget st = None ->
-  let st' := apply_change c idx kind p s st in r_out st' = r_out st /\ bk st st' (newids p s st).
+  let st' := apply_change fl c idx kind p s st in r_out st' = r_out st /\ bk st st' (newids p s st).
 Proof.
   intros Hb. destruct (apply_change_bk idx kind p s st Hb) as [A B]. split; auto.
   unfold newids. destruct (blookup p (r_files st)) as [id|]; auto.
@@ -208,7 +218,7 @@ Proof.
 Qed.
 
 Lemma diff_feed_bk idx f2 : forall old st, r_budget st = None ->
-  let st' := diff_feed c idx f2 old st in r_out st' = r_out st /\ bk st st' (newids (st_path f2) f2 st).
+  let st' := diff_feed fl c idx f2 old st in r_out st' = r_out st /\ bk st st' (newids (st_path f2) f2 st).
 Proof.
   induction old as [|f1 rest IH]; intros st Hb; cbn [diff_feed].
   - pose proof (set_diff_same st [] [] Hb) as S0.
@@ -218,7 +228,7 @@ Proof.
     + (* same path *)
       set (rm := if st_is_dir f1 && negb (st_is_dir f2) then st_path f1 ++ [sep] else []).
       pose proof (set_diff_same st rest rm Hb) as S0.
-      destruct (same_file f1 f2).
+      destruct (same_file f1 (f_map fl f2)).
       * split; [apply S0|apply same_bk_bk; exact S0].
       * destruct (apply_change_add idx 1 (st_path f2) f2 (set_diff st rest rm) (sb_budget _ _ S0)) as [A B].
         split; [rewrite A; apply S0|]. apply (bk_of_same st _ _ _ S0). exact B.
@@ -230,7 +240,7 @@ Proof.
       * pose proof (set_diff_same st rest (rm_prefix_of f1) Hb) as S0.
         pose proof (apply_change_del idx (st_path f1) f1 _ (sb_budget _ _ S0)) as S1.
         pose proof (same_bk_trans _ _ _ S0 S1) as S01.
-        destruct (live (apply_change c idx 2 (st_path f1) f1 (set_diff st rest (rm_prefix_of f1)))).
+        destruct (live (apply_change fl c idx 2 (st_path f1) f1 (set_diff st rest (rm_prefix_of f1)))).
         -- destruct (IH _ (sb_budget _ _ S01)) as [A B]. split; [rewrite A; apply S01|].
            unfold newids in *. rewrite (sb_files _ _ S01) in B. apply (bk_of_same st _ _ _ S01). exact B.
         -- split; [apply S01|apply same_bk_bk; exact S01].
@@ -239,7 +249,7 @@ Proof.
       split; [rewrite A; apply S0|]. apply (bk_of_same st _ _ _ S0). exact B.
 Qed.
 
-Lemma diff_flush_bk idx : forall old st, r_budget st = None -> same_bk st (diff_flush c idx old st).
+Lemma diff_flush_bk idx : forall old st, r_budget st = None -> same_bk st (diff_flush fl c idx old st).
 Proof.
   induction old as [|f1 rest IH]; intros st Hb; cbn [diff_flush].
   - apply set_diff_same. exact Hb.
@@ -249,7 +259,7 @@ Proof.
     + pose proof (set_diff_same st rest (rm_prefix_of f1) Hb) as S0.
       pose proof (apply_change_del idx (st_path f1) f1 _ (sb_budget _ _ S0)) as S1.
       pose proof (same_bk_trans _ _ _ S0 S1) as S01.
-      destruct (live (apply_change c idx 2 (st_path f1) f1 (set_diff st rest (rm_prefix_of f1)))); auto.
+      destruct (live (apply_change fl c idx 2 (st_path f1) f1 (set_diff st rest (rm_prefix_of f1)))); auto.
       apply (same_bk_trans _ _ _ S01). apply IH. apply S01.
 Qed.
 
@@ -443,7 +453,7 @@ Proof.
 Qed.
 
 Lemma stat_step idx s st sp : running st = true -> SInv st sp ->
-  let st' := maybe_wait c dl idx (recv_stat c idx s st) in
+  let st' := maybe_wait c dl idx (recv_stat fl c idx s st) in
   if stat_bad sp s then r_out st' = Failed idx /\ r_fs st' = r_fs st
   else (running st' = true /\ SInv st' (sspec_stat sp s)) \/ stopped_at st' idx.
 Proof.
@@ -477,7 +487,7 @@ Proof.
   { right. right. apply (Hstop st1 (Panicked idx) (or_intror eq_refl) eq_refl). }
   assert (Hb1 : r_budget st1 = None) by (simpl; apply S).
   destruct (diff_feed_bk idx s (r_old st1) st1 Hb1) as [Ho B].
-  set (st2 := diff_feed c idx s (r_old st1) st1) in *.
+  set (st2 := diff_feed fl c idx s (r_old st1) st1) in *.
   destruct (maybe_wait_bk idx st2 (bk_budget _ _ _ B)) as (A1 & A2 & A3 & A4 & A5 & A6 & A7).
   left. split.
   - apply running_out. rewrite A1, Ho. simpl. apply running_out. exact Hr.
@@ -530,7 +540,7 @@ Proof.
   - apply IH in H. lia.
 Qed.
 
-Lemma recv_loop_stopped : forall pks idx st, running st = false -> recv_loop c dl idx pks st = st.
+Lemma recv_loop_stopped : forall pks idx st, running st = false -> recv_loop fl c dl idx pks st = st.
 Proof.
   induction pks as [|pk r IH]; intros idx st H; simpl; [reflexivity|].
   unfold recv_packet. rewrite H. simpl. apply IH. exact H.
@@ -548,9 +558,9 @@ Qed.
 Theorem reject_main : forall pks st sp idx b,
   (running st = true /\ SInv st sp) \/ (exists k, (k < idx)%nat /\ stopped_at st k) ->
   spec_bad pks sp idx = Some b ->
-  let st' := recv_loop c dl idx pks st in
+  let st' := recv_loop fl c dl idx pks st in
   (exists k, (k <= b)%nat /\ stopped_at st' k)
-  /\ r_fs st' = r_fs (recv_loop c dl idx (firstn (b - idx) pks) st).
+  /\ r_fs st' = r_fs (recv_loop fl c dl idx (firstn (b - idx) pks) st).
 Proof.
   induction pks as [|pk r IH]; intros st sp idx b Hst Hbad; [discriminate|].
   pose proof (spec_bad_ge _ _ _ _ Hbad) as Hge.
@@ -558,30 +568,30 @@ Proof.
   2:{ cbv zeta. rewrite !recv_loop_stopped by (apply (stopped_not_running st k Hs)).
       split; auto. exists k. split; [lia|exact Hs]. }
   cbv zeta. cbn [recv_loop].
-  assert (Hpk : recv_packet c dl idx pk st =
+  assert (Hpk : recv_packet fl c dl idx pk st =
                 maybe_wait c dl idx (match pk with
                                      | PErr => set_out st (Failed idx)
                                      | PFin => set_out st (Drained idx)
                                      | POther => st
                                      | PStat None => if r_closed st then set_out st (Panicked idx)
                                                      else if is_dead st then set_out st (Failed idx)
-                                                     else diff_flush c idx (r_old st) (set_flags st true (r_waited st))
-                                     | PStat (Some s) => recv_stat c idx s st
+                                                     else diff_flush fl c idx (r_old st) (set_flags st true (r_waited st))
+                                     | PStat (Some s) => recv_stat fl c idx s st
                                      | PData id d => recv_data c idx id d st
                                      end)).
   { unfold recv_packet. rewrite Hr. reflexivity. }
   (* the packet is the offender: nothing applied, the run is over *)
   assert (Hhere : forall st1, r_out st1 = Failed idx -> r_fs st1 = r_fs st -> b = idx ->
-            (exists k, (k <= b)%nat /\ stopped_at (recv_loop c dl (S idx) r st1) k)
-            /\ r_fs (recv_loop c dl (S idx) r st1) = r_fs (recv_loop c dl idx (firstn (b - idx) (pk :: r)) st)).
+            (exists k, (k <= b)%nat /\ stopped_at (recv_loop fl c dl (S idx) r st1) k)
+            /\ r_fs (recv_loop fl c dl (S idx) r st1) = r_fs (recv_loop fl c dl idx (firstn (b - idx) (pk :: r)) st)).
   { intros st1 Ho Ef Eb. subst b. rewrite Nat.sub_diag. cbn [firstn recv_loop].
     rewrite recv_loop_stopped by (unfold running; rewrite Ho; reflexivity).
     split; auto. exists idx. split; [lia|left; exact Ho]. }
   (* the packet is fine: go on *)
   assert (Hnext : forall st1 sp1, (running st1 = true /\ SInv st1 sp1) \/ stopped_at st1 idx ->
-            spec_bad r sp1 (S idx) = Some b -> st1 = recv_packet c dl idx pk st ->
-            (exists k, (k <= b)%nat /\ stopped_at (recv_loop c dl (S idx) r st1) k)
-            /\ r_fs (recv_loop c dl (S idx) r st1) = r_fs (recv_loop c dl idx (firstn (b - idx) (pk :: r)) st)).
+            spec_bad r sp1 (S idx) = Some b -> st1 = recv_packet fl c dl idx pk st ->
+            (exists k, (k <= b)%nat /\ stopped_at (recv_loop fl c dl (S idx) r st1) k)
+            /\ r_fs (recv_loop fl c dl (S idx) r st1) = r_fs (recv_loop fl c dl idx (firstn (b - idx) (pk :: r)) st)).
   { intros st1 sp1 H1 Hb1 E1. pose proof (spec_bad_ge _ _ _ _ Hb1) as Hge1.
     assert (Hst1 : (running st1 = true /\ SInv st1 sp1) \/ (exists k, (k < S idx)%nat /\ stopped_at st1 k)).
     { destruct H1 as [H1|H1]; [left; exact H1|right; exists idx; split; [lia|exact H1]]. }
@@ -625,6 +635,24 @@ Proof.
   - apply inv_init.
 Qed.
 
+Theorem bad_stream_rejected_f :
+  forall (fl : rfilter),
+    (forall s, st_mode (f_map fl s) = st_mode s) -> (forall s, st_linkname (f_map fl s) = st_linkname s) ->
+  forall (f : fs) (root D : N) (dl merge : bool) (tmps : list bytes) (pks : list packet) (b : nat),
+    spec_bad pks sspec_init 0 = Some b ->
+    let st := recv_run_f fl f root D dl merge tmps pks None in
+    (exists k, (k <= b)%nat /\ (r_out st = Failed k \/ r_out st = Panicked k))
+    /\ recv_succeeds st = false
+    /\ r_fs st = r_fs (recv_run_f fl f root D dl merge tmps (firstn b pks) None).
+Proof.
+  intros fl Hm1 Hm2 f root D dl merge tmps pks b Hb. cbv zeta. unfold recv_run_f.
+  destruct (reject_main fl {| c_root := root; c_cwd := D |} dl Hm1 Hm2 pks (rstate_init f D merge tmps None) sspec_init 0 b
+              (or_introl (conj eq_refl (SInv_init f D merge tmps))) Hb) as [(k & Hk & Hs) Hf].
+  cbv zeta in Hf. rewrite Nat.sub_0_r in Hf.
+  split; [exists k; split; auto|]. split; [|exact Hf].
+  unfold recv_succeeds. destruct Hs as [-> | ->]; reflexivity.
+Qed.
+
 Theorem bad_stream_rejected_proof :
   forall (f : fs) (root D : N) (dl merge : bool) (tmps : list bytes) (pks : list packet) (b : nat),
     spec_bad pks sspec_init 0 = Some b ->
@@ -633,10 +661,5 @@ Theorem bad_stream_rejected_proof :
     /\ recv_succeeds st = false
     /\ r_fs st = r_fs (recv_fs f root D dl merge tmps (firstn b pks)).
 Proof.
-  intros f root D dl merge tmps pks b Hb. cbv zeta. unfold recv_fs, recv_run.
-  destruct (reject_main {| c_root := root; c_cwd := D |} dl pks (rstate_init f D merge tmps None) sspec_init 0 b
-              (or_introl (conj eq_refl (SInv_init f D merge tmps))) Hb) as [(k & Hk & Hs) Hf].
-  cbv zeta in Hf. rewrite Nat.sub_0_r in Hf.
-  split; [exists k; split; auto|]. split; [|exact Hf].
-  unfold recv_succeeds. destruct Hs as [-> | ->]; reflexivity.
+  intros. apply (bad_stream_rejected_f no_filter); auto.
 Qed.
